@@ -288,8 +288,15 @@ pub fn gen_modular_case(src: &mut Src, o: &ModGenOpts) -> ModularCase {
     for e in &ec_info {
         let s = e.dim_shift;
         let mut ch = Chan::with_shift(ceil_shift(w, s), ceil_shift(h, s), s as i32, s as i32);
-        let ebits = e.bit_depth.bits();
-        fill_channel(src, &mut ch, 0, (1i64 << ebits.min(30)) - 1);
+        let (elo, ehi) = match e.bit_depth {
+            // finite, normal, non-negative bit patterns only (sub-normals / non-finite are unspecified territory)
+            BitDepthSpec::Float { bits, exp_bits } => {
+                let mant = bits - exp_bits - 1;
+                (1i64 << mant, (((1i64 << exp_bits) - 2) << mant) | ((1i64 << mant) - 1))
+            }
+            BitDepthSpec::Int { bits } => (0, (1i64 << bits.min(30)) - 1),
+        };
+        fill_channel(src, &mut ch, elo, ehi);
         image.push(ch);
     }
     let amplitude = if is_float { 1 << 20 } else { ((hi - lo) / 4).clamp(1, 1 << 24) };
